@@ -120,6 +120,16 @@ def check(run):
                     kind, m = rng.choice(sites)
                     M.text[(kind, m)] = rng.choice(['zz%d == 1', 'g0 == c', 'x', 'g0 == 1 && !(g1 < 2) || g2 > 3', '!(g0 == %d) && (g1 > 0 || g2 < 5)', 'g0 == 1 || g1 < 2 && g2 > 3', 'g0 == %d || !(g1 < 2) && g2 > 3 || g1 == 0 && g0 > 1',
                                                     'x < 5 || g0 == 1 && x < 3', '!(g0 == 1) || g1 < 2 && !(g2 > 3)', 'g0 == 1 && g1 < 2 || g2 > 3 && g0 < %d']).replace('%d', str(m)) if kind == 'guard' else rng.choice(['g1 = zz%d', 'g1 = (g0 > 1 && g2 < 3) ? 1 : 0']).replace('%d', str(m))
+            if rng.random() < 0.3:
+                # location names that are ordinary words to the XML reader although the declaration language reserves them
+                # (names the reader refuses as keywords - init, guard, int, ... - are not user-chosen identifiers and are left out)
+                odd = ['exit', 'default', 'select', 'progress', 'query', 'spawn', 'meta', 'assert', 'return', 'for', 'do', 'if', 'else', 'while', 'typedef', 'struct', 'string', 'hybrid', 'switch', 'case',
+                       'continue', 'break', 'enum', 'gantt', 'import', 'dynamic', 'refinement', 'consistency', 'specification', 'implementation', 'scenario', 'min', 'max', 'instance', 'template']
+                rng.shuffle(odd)
+                for T in M.templates:
+                    for l in T['locs']:
+                        if l['name'] and odd and rng.random() < 0.5:
+                            l['name'] = odd.pop()
             base = docgen.render_xml(M)
         else:
             base = crashgen.wrap_xml(rng.choice(crashgen.DECL) + ' ' + rng.choice(crashgen.DECL), guard=rng.choice(crashgen.EXPR), assign=rng.choice(['g = 1', 'g = 1, b = false', 'g++']),
